@@ -298,6 +298,7 @@ static void run_backend (void)
       dup2 (fd, STDOUT_FILENO);
       close (fd);
     }
+  int mref0 = master_ob->ref, sref0 = simul_efun_ob ? simul_efun_ob->ref : 0;
   vh_out ("start");
   backend ();
   vh_out (g_proceeding_shutdown ? "exit shutdown" : "exit loop");
@@ -313,12 +314,23 @@ static void run_backend (void)
     if (reg && vh_apply_str (reg, "hb_report", 0, 0, res, sizeof res) == 0)
       vh_out ("hbs %s", res);
   }
+  /* reference counts of the two vital objects relative to the start of backend(): connection set-up takes an
+   * extra reference on master_ob and must give it back on every path (accepted, rejected, failing connect()) */
+  vh_out ("refs %d %d", master_ob->ref - mref0, (simul_efun_ob ? simul_efun_ob->ref : 0) - sref0);
   {
     int n = 0;
     for (int i = 0; all_users && i < max_users; i++)
       if (all_users[i])
         n++;
     vh_out ("slots %d", n);
+    {
+      char idx[1024] = "";
+      size_t o = 0;
+      for (int i = 0; all_users && i < max_users && o < sizeof idx - 12; i++)
+        if (all_users[i])
+          o += snprintf (idx + o, sizeof idx - o, " %d", i);
+      vh_out ("slotidx%s", idx);
+    }
   }
   for (int k = 0; k < MAXCLI; k++)
     if (cli[k].used && !cli[k].closed_by_script)
